@@ -7,6 +7,10 @@ MODES
   attr-temp    `<obj>.<f> = <expr>`      ->  `_val_k = <expr>` ; `<obj>.<f> = _val_k`        (single-target stores only)
   not-swap     `if C: A else: B`         ->  `if not (C): B else: A`                        (plain if/else with a non-empty else that is not an elif chain)
   swap-indep   `a = E1 ; b = E2`         ->  `b = E2 ; a = E1`                              (adjacent call-free assignments to locals that do not mention each other)
+  cmp-flip     `a == b` / `a != b` / `a < b` ... ->  `b == a` / `b != a` / `b > a` ...      (two-operand comparisons; `in` / `is` untouched)
+  kw-reorder   `f(x, a=1, b=2)`          ->  `f(x, b=2, a=1)`                               (keyword arguments reversed; no **kwargs in the call; pure argument expressions)
+  else-wrap    `if C: ...; return` ; rest ->  `if C: ...; return` `else:` rest               (if without else whose body ends in return / raise / continue / break)
+  else-unwrap  `if C: ...; return` `else:` rest  ->  `if C: ...; return` ; rest              (the inverse; else that is not an elif chain)
 """
 import ast, os, sys
 from concurrent.futures import ProcessPoolExecutor
@@ -106,7 +110,75 @@ class SwapIndep(RetTemp):
         return n
 
 
-MODES = {"ret-temp": RetTemp, "attr-temp": AttrTemp, "not-swap": NotSwap, "swap-indep": SwapIndep}
+FLIP = {ast.Eq: ast.Eq, ast.NotEq: ast.NotEq, ast.Lt: ast.Gt, ast.Gt: ast.Lt, ast.LtE: ast.GtE, ast.GtE: ast.LtE}
+
+
+class CmpFlip(RetTemp):
+    def visit_Return(self, n):
+        self.generic_visit(n); return n
+    def visit_Compare(self, n):
+        self.generic_visit(n)
+        if len(n.ops) == 1 and type(n.ops[0]) in FLIP and _pure(n.left) and _pure(n.comparators[0]):
+            self.k += 1
+            return ast.Compare(left=n.comparators[0], ops=[FLIP[type(n.ops[0])]()], comparators=[n.left])
+        return n
+
+
+class KwReorder(RetTemp):
+    def visit_Return(self, n):
+        self.generic_visit(n); return n
+    def visit_Call(self, n):
+        self.generic_visit(n)
+        if len(n.keywords) >= 2 and all(k.arg is not None and _pure(k.value) for k in n.keywords):
+            self.k += 1
+            n.keywords = list(reversed(n.keywords))
+        return n
+
+
+def _exits(body):
+    return bool(body) and isinstance(body[-1], (ast.Return, ast.Raise, ast.Continue, ast.Break))
+
+
+class ElseWrap(RetTemp):
+    def visit_Return(self, n): return n
+    def _wrap(self, body):
+        for i, st in enumerate(body):
+            if isinstance(st, ast.If) and not st.orelse and _exits(st.body) and i + 1 < len(body):
+                st.orelse = body[i + 1:]
+                del body[i + 1:]
+                self.k += 1
+                self._wrap(st.orelse)
+                return
+    def generic_visit(self, node):
+        for fld in ("body", "orelse", "finalbody"):
+            blk = getattr(node, fld, None)
+            if isinstance(blk, list) and blk and isinstance(blk[0], ast.stmt):
+                self._wrap(blk)
+        super().generic_visit(node)
+        return node
+    def visit_FunctionDef(self, n):
+        self.depth += 1
+        if self.depth > 1:
+            self.depth -= 1
+            return n
+        self.generic_visit(n); self.depth -= 1
+        return n
+
+
+class ElseUnwrap(ElseWrap):
+    def _wrap(self, body):
+        i = 0
+        while i < len(body):
+            st = body[i]
+            if isinstance(st, ast.If) and st.orelse and _exits(st.body) and not (len(st.orelse) == 1 and isinstance(st.orelse[0], ast.If)):
+                rest = st.orelse
+                st.orelse = []
+                body[i + 1:i + 1] = rest
+                self.k += 1
+            i += 1
+
+
+MODES = {"ret-temp": RetTemp, "attr-temp": AttrTemp, "not-swap": NotSwap, "swap-indep": SwapIndep, "cmp-flip": CmpFlip, "kw-reorder": KwReorder, "else-wrap": ElseWrap, "else-unwrap": ElseUnwrap}
 
 
 def transform(src, fn_node, mode):
